@@ -100,7 +100,7 @@ def run(ctx):
     ctx.sample({"impl": cases[2]["impl"], "inputs": {k: v["shape"] for k, v in cases[2]["inputs"].items()}, "dtype": cases[2]["meta"]["dtype"]})
     f = ctx.work / "C12_static.v"
     f.write_text((core.COQ / "Props" / "C12.v").read_text())
-    ctx.compile("Props/C12.v: sort is an ordered permutation, argsort is a permutation of 0..n-1 that applied to the input gives sort, ties keep their original order (ascending and descending) - for inputs of any length", f, kind="theorem")
+    ctx.compile("Props/C12.v: sort is an ordered permutation, argsort is a permutation of 0..n-1 that applied to the input gives sort, ties keep their original order (ascending and descending) - for inputs of any length; unique_all: values strictly ascending and exactly the input's elements, indices = first occurrences, inverse rebuilds the input, counts positive; searchsorted's counting specification is NumPy's insertion point (left and right) for every sorted x1", f, kind="theorem")
     ctx.coverage.update({"rule": "in-Coq correspondence on int64 1-D data (lengths 1-40, duplicates, INT64 extremes): sort/argsort both directions, unique_all (4 outputs), searchsorted both sides vs the counting specification, nonzero on ranks 1-3; NumPy sweep: 10 numeric dtypes, ranks 1-3, every axis, descending, duplicates, lengths to 40 (quick) / 300 and 70001 (thorough), unique_*, searchsorted with sorter, nonzero, where with 3-way broadcasting; eager and traced. Distinct by canonical case."})
 
 
